@@ -188,7 +188,7 @@ def r7_activate_unconditional(ctx):
     if not f:
         return
     D = 'des::time::driver::'
-    sites = [(s.b, short(s.name)) for s in f.calls() if s.name in (D + 'Driver::bump', D + 'Driver::set')] + [(b, 'next_wakeup clear') for (b, i, st) in f.writes_to_field('next_wakeup')]
+    sites = [(s.b, short(s.name)) for s in f.calls() if s.name in (D + 'Driver::bump', D + 'TimerQueue::bump', D + 'Driver::set')] + [(b, 'next_wakeup clear') for (b, i, st) in f.writes_to_field('next_wakeup')]
     if not ctx.floor('timer bookkeeping sites in activate', len(sites), 3):
         return
     for b, what in sites:
